@@ -14,15 +14,19 @@ EXTENDS Dec, Sequences, FiniteSets, TLC
 NoneS == "~"
 NoD == [m |-> 0, s |-> -1]                 \* absent number
 
-\* row: [day, payee, amt (signed effect on the statement: credit > 0, debit < 0), rate |-> [r, inv] or NoRate, sec (unsigned secondary amount or NoD), note]
+\* row: [day, payee, amt (signed effect on the statement: credit > 0, debit < 0), rate |-> [r, inv] or NoRate, sec (unsigned secondary amount or NoD), note,
+\*       chg (what the charge column shows: NoD = empty cell, else a fee that is part of amt)]
 \* cfg: [atype, cols ("amount"|"creditdebit"), layout, delim, skip, datefmt, order ("old_to_new"|"new_to_old"), balance (BOOLEAN),
-\*       conv ("none"|"extract_pos"|"compute_pos"|"extract_pop"|"compute_pop"|"disabled"), ruleconv ("none"|"disabled"|"commodity")]
+\*       conv ("none"|"extract_pos"|"compute_pos"|"extract_pop"|"compute_pop"|"disabled"), ruleconv ("none"|"disabled"|"commodity"),
+\*       charge ("none"|"column")]
 NoRate == [r |-> NoD, inv |-> NoD]
 Primary == "USD"
 StatementSecondary == "EUR"          \* what the statement's secondary-commodity column shows
 RuleSecondary == "JPY"                \* what a rule's conversion.commodity says
 SecondaryOf(cfg) == IF cfg.ruleconv = "commodity" THEN RuleSecondary ELSE StatementSecondary
 Account == "Assets:Src"
+ChargeAccount == "Expenses:Commissions"
+Operator == "The Bank"              \* the configured `operator`: the payee of a charge posting
 
 \* ---------------------------------------------------------------- what the statement file shows for a row
 \* an `amount` column shows the effect on the account as the bank prints it: for a liability
@@ -36,11 +40,16 @@ ShownAmount(cfg, row) == IF cfg.atype = "liability" THEN DecNeg(row.amt) ELSE ro
 \* precedence over the account-wide default (cfg.conv)
 Converts(cfg, row) == cfg.ruleconv # "disabled" /\ cfg.conv \notin {"none", "disabled"} /\ row.rate # NoRate
 PriceOfPrimary(cfg) == cfg.conv \in {"extract_pop", "compute_pop"}
+\* a charge column: the row's amount is the net effect on the account, the fee is a part of it, so what moves
+\* to or from the counter account is the amount with the fee taken out (a debit of 101 with a fee of 1 pays 100,
+\* a credit of 49 with a fee of 1 received 50); an empty or zero cell is no charge
+HasCharge(cfg, row) == cfg.charge = "column" /\ row.chg # NoD /\ ~DecIsZero(row.chg)
+Principal(cfg, row) == IF HasCharge(cfg, row) THEN DecAdd(row.amt, row.chg) ELSE row.amt
 \* the secondary amount: extracted from the row, or computed from the rate
 Transferred(cfg, row) ==
   IF cfg.conv \in {"extract_pos", "extract_pop"} THEN row.sec
-  ELSE IF PriceOfPrimary(cfg) THEN DecMul(DecAbs(row.amt), row.rate.r)        \* 1 primary = rate secondary
-  ELSE DecMul(DecAbs(row.amt), row.rate.inv)                                   \* 1 secondary = rate primary
+  ELSE IF PriceOfPrimary(cfg) THEN DecMul(DecAbs(Principal(cfg, row)), row.rate.r)        \* 1 primary = rate secondary
+  ELSE DecMul(DecAbs(Principal(cfg, row)), row.rate.inv)                                   \* 1 secondary = rate primary
 \* sign opposite to the row's amount
 Opposite(v, amt) == IF DecSign(amt) > 0 THEN DecNeg(DecAbs(v)) ELSE DecAbs(v)
 
@@ -49,20 +58,26 @@ SrcPosting(cfg, row, running) ==
   [account |-> Account, amt |-> row.amt, c |-> Primary,
    \* price_of_primary: the rate prices the primary commodity, so it sits on the primary posting
    cost |-> IF Converts(cfg, row) /\ PriceOfPrimary(cfg) THEN [c |-> SecondaryOf(cfg), v |-> row.rate.r] ELSE NoCost,
-   balance |-> IF cfg.balance THEN running ELSE NoD]
+   balance |-> IF cfg.balance THEN running ELSE NoD, payee |-> NoneS]
+\* the fee, in the primary commodity; priced like the account posting when the rate prices the primary commodity
+ChargePosting(cfg, row) ==
+  [account |-> ChargeAccount, amt |-> row.chg, c |-> Primary,
+   cost |-> IF Converts(cfg, row) /\ PriceOfPrimary(cfg) THEN [c |-> SecondaryOf(cfg), v |-> row.rate.r] ELSE NoCost,
+   balance |-> NoD, payee |-> Operator]
 DestPosting(cfg, row) ==
   IF Converts(cfg, row)
   THEN [account |-> IF DecSign(row.amt) > 0 THEN "Income:Unknown" ELSE "Expenses:Unknown",
         amt |-> Opposite(Transferred(cfg, row), row.amt), c |-> SecondaryOf(cfg),
         cost |-> IF PriceOfPrimary(cfg) THEN NoCost ELSE [c |-> Primary, v |-> row.rate.r],
-        balance |-> NoD]
+        balance |-> NoD, payee |-> NoneS]
   ELSE [account |-> IF DecSign(row.amt) > 0 THEN "Income:Unknown" ELSE "Expenses:Unknown",
-        amt |-> DecNeg(row.amt), c |-> Primary, cost |-> NoCost, balance |-> NoD]
-\* positive amounts list the account first, negative ones the counter-account first
+        amt |-> DecNeg(Principal(cfg, row)), c |-> Primary, cost |-> NoCost, balance |-> NoD, payee |-> NoneS]
+\* positive amounts list the account first, negative ones the counter-account first; a charge sits between them
 ExpectedTxn(cfg, row, running) ==
+  LET chg == IF HasCharge(cfg, row) THEN <<ChargePosting(cfg, row)>> ELSE <<>> IN
   [day |-> row.day, payee |-> row.payee, note |-> row.note,
-   posts |-> IF DecSign(row.amt) > 0 THEN <<SrcPosting(cfg, row, running), DestPosting(cfg, row)>>
-             ELSE <<DestPosting(cfg, row), SrcPosting(cfg, row, running)>>]
+   posts |-> IF DecSign(row.amt) > 0 THEN <<SrcPosting(cfg, row, running)>> \o chg \o <<DestPosting(cfg, row)>>
+             ELSE <<DestPosting(cfg, row)>> \o chg \o <<SrcPosting(cfg, row, running)>>]
 
 \* rows are given oldest first; the running balance column accumulates from the opening balance
 RECURSIVE RunningAt(_, _, _)
@@ -74,18 +89,19 @@ FileOrder(cfg, rows) == IF cfg.order = "new_to_old" THEN [k \in 1..Len(rows) |->
 \* ---------------------------------------------------------------- composition with book-keeping (design check)
 \* balancing value of a posting: its cost if it has one (rate x quantity), else its own amount
 Valued(p) == IF p.cost = NoCost THEN [c |-> p.c, v |-> p.amt] ELSE [c |-> p.cost.c, v |-> DecMul(p.amt, p.cost.v)]
+RECURSIVE SumValued(_, _)
+SumValued(ps, k) == IF k = 0 THEN D(0, 0) ELSE DecAdd(SumValued(ps, k - 1), Valued(ps[k]).v)
 TxnBalanced(t) ==
-  LET a == Valued(t.posts[1])
-      b == Valued(t.posts[2])
-  IN a.c = b.c /\ DecIsZero(DecAdd(a.v, b.v))
+  /\ \A i, j \in 1..Len(t.posts) : Valued(t.posts[i]).c = Valued(t.posts[j]).c
+  /\ DecIsZero(SumValued(t.posts, Len(t.posts)))
 \* every transaction balances, and the asserted balances are the running sums: book-keeping accepts
 \* the ledger and the account ends at the last running balance
 AssetConsistentAccepted(cfg, rows, opening) ==
   LET e == Expected(cfg, rows, opening) IN
   /\ \A k \in 1..Len(e) : TxnBalanced(e[k])
-  /\ \A k \in 1..Len(e) : \A i \in 1..2 :
+  /\ \A k \in 1..Len(e) : \A i \in 1..Len(e[k].posts) :
         (e[k].posts[i].account = Account /\ cfg.balance) => e[k].posts[i].balance = RunningAt(rows, k, opening)
 RateOnPricedCommodity(cfg, rows, opening) ==
-  \A k \in 1..Len(rows) : \A i \in 1..2 :
+  \A k \in 1..Len(rows) : \A i \in 1..Len(Expected(cfg, rows, opening)[k].posts) :
      LET p == Expected(cfg, rows, opening)[k].posts[i] IN p.cost # NoCost => p.cost.c # p.c
 =============================================================================
